@@ -313,23 +313,34 @@ fn caught(prop: &str, stage: &str, c: Caught) -> Violation {
     caught_violation(prop, stage, &c)
 }
 
-fn run_inner(
+fn run_inner<'a>(
     spec: &ScenarioSpec,
-    m: &Model,
+    m: &'a Model,
     ctx: &mut Ctx,
     prop: &str,
     flags: Flags,
-    stream: &mut SimStream,
+    stream: &mut SimStream<'a>,
     dropping: Option<usize>,
 ) -> Result<(), Violation> {
-    let dropped_before = |pos_needed: usize| dropping.map_or(false, |d| d < pos_needed);
+    let mut dropping = dropping;
+    let resume_allowed = spec.knob("resume") != 0;
+    let mut resumed = false;
+    let mut second: Option<SimStream<'a>> = None;
+    // offset (in the file) of the current stream's first byte: 0 until the parser reconnects
+    let mut base_off = 0usize;
+    let mut stream: &mut SimStream<'a> = stream;
+    macro_rules! dropped_before {
+        ($pos:expr) => {
+            dropping.map_or(false, |d| d < $pos)
+        };
+    }
     // header
     let hdr = guarded(|| de::parse_header(&mut *stream, None));
     let raw_len = match hdr {
         Ok(Ok(n)) => n as usize,
         Ok(Err(e)) => {
-            if stream.hard_error_returned || dropped_before(15) || (stream.interrupted_returned && is_interrupted(&e)) {
-                ctx.fault("connection_drop", dropped_before(15) as u64);
+            if stream.hard_error_returned || dropped_before!(15) || (stream.interrupted_returned && is_interrupted(&e)) {
+                ctx.fault("connection_drop", dropped_before!(15) as u64);
                 return Ok(());
             }
             return Err(Violation::new(prop, "unexpected-err", "parse_header", crate::report::short(&e.to_string(), 200)));
@@ -346,7 +357,7 @@ fn run_inner(
     let mut state = match st {
         Ok(Ok(s)) => s,
         Ok(Err(e)) => {
-            if stream.hard_error_returned || dropped_before(start_ev.off + start_ev.len) || (stream.interrupted_returned && is_interrupted(&e)) {
+            if stream.hard_error_returned || dropped_before!(start_ev.off + start_ev.len) || (stream.interrupted_returned && is_interrupted(&e)) {
                 ctx.fault("connection_drop", 1);
                 return Ok(());
             }
@@ -376,7 +387,13 @@ fn run_inner(
     let mut step = 0usize;
     let mut dropped = false;
     let mut rv_done = 0usize;
-    for (ei, e) in m.events.iter().enumerate().skip(2) {
+    let mut ei = 1usize;
+    loop {
+        ei += 1;
+        if ei >= m.events.len() {
+            break;
+        }
+        let e = &m.events[ei];
         if state.bytes_read() >= raw_len {
             break;
         }
@@ -391,10 +408,37 @@ fn run_inner(
                     dropped = true;
                     break;
                 }
-                if dropped_before(e.off + e.len) {
+                if dropped_before!(e.off + e.len) {
                     // connection lost inside this event: the completed part must be intact
                     ctx.fault("connection_drop", 1);
                     ctx.probe("connection lost in the middle of an event");
+                    if resume_allowed && !resumed {
+                        // the client reconnects and asks for the stream again from the byte count the parser
+                        // reports; only what the parser holds survives. The failed event is delivered again.
+                        let exp = consumed(e.off);
+                        if flags.protocol && state.bytes_read() != exp {
+                            return Err(Violation::new(prop, "bytes-read-mismatch", "after-failed-call", format!("after the failed call bytes_read is {} but {} raw bytes belong to completed events", state.bytes_read(), exp)));
+                        }
+                        let resume_at = crate::recorder::HEADER_LEN + state.bytes_read();
+                        if resume_at > m.bytes.len() {
+                            return Err(Violation::new(prop, "bytes-read-mismatch", "after-failed-call", "bytes_read points beyond the stream"));
+                        }
+                        let mut ss = spec.stream.clone();
+                        ss.hard_error_call = None;
+                        ss.hard_error_offset = None;
+                        ss.prefix = 0;
+                        ss.suffix = 0;
+                        ss.pseed ^= 0x2E5;
+                        second = Some(SimStream::new(&m.bytes[resume_at..], &ss, &[]));
+                        stream = second.as_mut().unwrap();
+                        base_off = resume_at;
+                        dropping = None;
+                        resumed = true;
+                        ctx.probe("parser resumed from bytes_read() after a dropped connection");
+                        ei -= 1; // deliver the same event again
+                        // characters of the open frame whose events were completed stay as they are
+                        continue;
+                    }
                     dropped = true;
                     break;
                 }
@@ -424,8 +468,8 @@ fn run_inner(
             if state.bytes_read() != exp {
                 return Err(Violation::new(prop, "bytes-read-mismatch", format!("parse_event[{:#04x}]", e.code), format!("event #{}: bytes_read {} but {} raw bytes consumed", ei, state.bytes_read(), exp)));
             }
-            if stream.position() != e.off + e.len {
-                return Err(Violation::new(prop, "bytes-read-mismatch", format!("parse_event[{:#04x}]", e.code), format!("event #{}: stream position {} but the event ends at {}", ei, stream.position(), e.off + e.len)));
+            if stream.position() + base_off != e.off + e.len {
+                return Err(Violation::new(prop, "bytes-read-mismatch", format!("parse_event[{:#04x}]", e.code), format!("event #{}: stream position {} but the event ends at {}", ei, stream.position() + base_off, e.off + e.len)));
             }
             if fa.rows() < prev_rows {
                 return Err(Violation::new(prop, "frame-count-decreased", "frames", format!("event #{}: {} rows after {} rows", ei, fa.rows(), prev_rows)));
@@ -549,7 +593,7 @@ fn run_inner(
         }
     }
     // junk after Game End inside the raw element is not an event: skip it like the one-shot reader does
-    let junk = m.raw_end.saturating_sub(stream.position());
+    let junk = m.raw_end.saturating_sub(stream.position() + base_off);
     if junk > 0 {
         let mut buf = vec![0u8; junk];
         let _ = std::io::Read::read_exact(&mut *stream, &mut buf);
@@ -605,8 +649,11 @@ fn run_inner(
         let n = cmp_incremental_vs_oneshot(state.frames(), &game.frames, cur.closed).map_err(|(s, msg)| Violation::new(prop, "field-mismatch", format!("incremental-vs-oneshot {}", s), msg))?;
         ctx.checks(n + 5);
     }
-    let _ = spec;
-    ctx.rep.nontrivial = !m.occs.is_empty() && (stream.stats.short_reads + stream.stats.eintr + stream.stats.recorder_steps > 0);
+    ctx.rep.nontrivial = !m.occs.is_empty() && (resumed || stream.stats.short_reads + stream.stats.eintr + stream.stats.recorder_steps > 0);
+    if let Some(s2) = second.as_ref() {
+        ctx.io(&s2.stats);
+        ctx.digest_u64(s2.digest);
+    }
     Ok(())
 }
 
